@@ -152,6 +152,7 @@ func emitRaw(out *vc.Out, data []byte, sizes []int, tailErr bool, kind string) {
 		c = "rawbig " + strconv.Itoa(len(data))
 	}
 	out.Case(c, o, key)
+	abortIfStuck(out)
 }
 
 func gz(b []byte) []byte {
